@@ -641,6 +641,13 @@ func vfC17Hostile(res *vfResult, c vfC17Case) {
 		{"garbage", func(i int) []byte { return vfGenRaw(r, 1)[0].Data }},
 		{"replayed-old-flights", func(i int) []byte { return genuine[i%len(genuine)] }},
 	}
+	// unauthenticated handshake records carrying message sequence numbers the peer never used: not a retransmission
+	// of anything, so a completed endpoint has no reason to repeat its final flight for them
+	phases = append(phases, phase{"forged-new-handshake-message", func(i int) []byte {
+		body := vfRandBytes(r, 24)
+
+		return vfLegacyRecord(22, 0xfefd, 0, uint64(600000+i), nil, -1, vfHSFragment([]uint8{1, 16, 20, 11}[i%4], uint32(len(body)), uint16(60+i%200), 0, uint32(len(body)), body))
+	}})
 	if tkErr == nil && lastHS != nil {
 		phases = append(phases, phase{"genuine-retransmission", func(i int) []byte {
 			ep, first := tk.reserve(peer.Name, 1)
@@ -693,6 +700,11 @@ func vfC17Hostile(res *vfResult, c vfC17Case) {
 			unparse := true
 			_ = unparse
 			res.Count("responses_to_garbage", int64(responses))
+		}
+		if ph.name == "forged-new-handshake-message" && responses != 0 {
+			res.Violate(fmt.Sprintf("C17:final-flight-resent-without-peer-retransmission:%s:%s", vfVerClass(c.V), c.Target),
+				fmt.Sprintf("%s: %d unauthenticated handshake records with message sequence numbers the peer never used drew %d datagrams from the completed endpoint", c.String(), nPer, responses),
+				map[string]any{"case": c.String()})
 		}
 		if ph.name == "genuine-retransmission" {
 			if responses > 0 {
